@@ -291,6 +291,8 @@ class _Budget:
     and the bounded stand-in decides), so a check stays within minutes instead of hours"""
     spent = 0.0
     limit = None
+    feas_spent = 0.0        # wall-clock of path-feasibility queries that ran into their limit (engine.Ctx.feasible)
+    feas_limit = 90.0
 
 
 def check_valid(ctx, formula, timeout_ms, want_model_vars=None, uf_apps=None):
@@ -379,6 +381,7 @@ def _split(target):
 def verify_contract(contract, timeout_ms=10000, max_paths=400, only=None):
     """returns dict(obligations=[...], paths=n, calls=..., undecided=[...])"""
     _Budget.spent = 0.0
+    _Budget.feas_spent = 0.0
     _Budget.limit = max(60.0, 3.0 * timeout_ms / 1000.0)
     f = resolve_target(contract.target)
     results = []
